@@ -120,10 +120,92 @@ func c14TextVsBinary(quick bool) C14Group {
 	return g
 }
 
+// c14TextReuse: the normalisation must not depend on what the connection did before. For every ordered pair
+// of key lengths (l1, l2): one text connection locks and unlocks a key of length l1 (id of length l1), then
+// locks a key of length l2; the hold must sit on the documented key / id, and the KV commands (SET/GET) must
+// address the documented key as well.
+func c14TextReuse(quick bool) C14Group {
+	g := C14Group{Name: "text-normalisation-after-other-commands"}
+	lens := []int{}
+	for n := 1; n <= 40; n++ {
+		lens = append(lens, n)
+	}
+	if !quick {
+		for n := 41; n <= 64; n++ {
+			lens = append(lens, n)
+		}
+	}
+	mk := func(ch byte, n int) string {
+		if n == 32 {
+			return strings.Repeat(string([]byte{ch, 'f'}), 16)[:32] // stays hex for ch in a..f, not hex otherwise
+		}
+		return strings.Repeat(string([]byte{ch}), n)
+	}
+	distinct := map[string]bool{}
+	for _, l1 := range lens {
+		var msg string
+		rt := vrt.Run(vrt.Options{MaxPoints: 200_000_000}, func() {
+			node := hapi.Factories["n0"](hapi.Config{FastKeys: 4, Concurrent: 1})
+			if err := node.Start(); err != nil {
+				msg = "engine: " + err.Error()
+				return
+			}
+			vrt.AdvanceTo(1300 * ms)
+			tc, _ := wire.Dial(nodeAddr(0))
+			for _, l2 := range lens {
+				g.Evaluations++
+				k1, k2 := mk('A', l1), mk('b', l2)
+				_ = tc.Send(wire.Resp("LOCK", k1, "LOCK_ID", k1, "TIMEOUT", "0", "EXPRIED", "50"))
+				_ = tc.Send(wire.Resp("UNLOCK", k1, "LOCK_ID", k1))
+				tc.TakeText()
+				_ = tc.Send(wire.Resp("LOCK", k2, "LOCK_ID", k2, "TIMEOUT", "0", "EXPRIED", "50"))
+				r := tc.TakeText()
+				snap := node.Snapshot()
+				want := normKey(k2)
+				ks := snap.Key(0, want)
+				if ks == nil || len(ks.Holds) != 1 || ks.Holds[0].LockId != want {
+					if msg == "" {
+						msg = fmt.Sprintf("after LOCK/UNLOCK of a %d-byte key on the same connection, text LOCK %q LOCK_ID %q does not hold the documented key/id %x (reply %v; holds: %s)", l1, k2, k2, want, r, snap.UserString())
+					}
+				}
+				_ = tc.Send(wire.Resp("UNLOCK", k2, "LOCK_ID", k2))
+				tc.TakeText()
+				// KV form: SET k2 then the value must sit on the documented key
+				_ = tc.Send(wire.Resp("SET", k1, "x"))
+				_ = tc.Send(wire.Resp("DEL", k1))
+				_ = tc.Send(wire.Resp("SET", k2, "y"))
+				tc.TakeText()
+				ks = node.Snapshot().Key(0, want)
+				if ks == nil || len(ks.Holds) != 1 {
+					if msg == "" {
+						msg = fmt.Sprintf("after SET/DEL of a %d-byte key on the same connection, text SET %q does not create the documented key %x (keys: %s)", l1, k2, want, node.Snapshot().UserString())
+					}
+				}
+				_ = tc.Send(wire.Resp("DEL", k2))
+				tc.TakeText()
+				distinct[fmt.Sprintf("%d>%d", l1, l2)] = true
+			}
+		})
+		if rt.Crash != nil {
+			msg = "crash: " + rt.Crash.Value
+		}
+		if strings.HasPrefix(msg, "engine:") {
+			g.Violations = append(g.Violations, explore.Violation{Sig: "engine", Msg: msg})
+			return g
+		}
+		if msg != "" && len(g.Violations) < 3 {
+			g.Violations = append(g.Violations, explore.Violation{Sig: "C14:text-normalisation-depends-on-history", Msg: msg})
+		}
+	}
+	g.Samples = append(g.Samples, fmt.Sprintf("%d ordered pairs of key lengths on one connection each", len(distinct)))
+	g.Distinct = len(distinct)
+	return g
+}
+
 func init() {
 	Registry["C14"] = func(c *Ctx) int {
 		groups := RunC14Codec(c.Quick())
-		groups = append(groups, c14TextVsBinary(c.Quick()))
+		groups = append(groups, c14TextVsBinary(c.Quick()), c14TextReuse(c.Quick()))
 		evals, distinct, viol := 0, 0, 0
 		var samples []interface{}
 		per := map[string]interface{}{}
